@@ -29,6 +29,7 @@ DF = 'odl/solvers/functional/default_functionals.py'
 COND = {
     'isinstance(other, Operator)': 'CIsOp',
     'isinstance(other, Number)': 'CIsNumber',
+    'isinstance(other, Real)': 'CIsReal',
     'isinstance(other, LinearSpaceElement)': 'CIsVec',
     'isinstance(other, Functional)': 'CIsFunctional',
     'isinstance(n, Integral)': 'CIsIntegral',
